@@ -4,11 +4,11 @@ CFG = cfg('C16', refine=['Refine_policy'], extract='Ex_C16', driver='c16',
           rule='real keys assembled packet by packet from RSA-1024 material (every component can sign and encrypt, so selection depends on flags '
                'alone): flag set from a family (quick: {}, Sign, EncC|EncS, Certify|Auth; thorough: 8 sets incl. "no KeyFlags subpacket") on the '
                'primary user id and on each of 0..2 subkeys x 7 operations (sign certify revoke revoker bind encrypt decrypt) x enforcement on/off x '
-               '{public, private, locked, unlocked}; 0..3 subkeys for a smaller family; identity choice (None, name, comment, e-mail, third uid, '
+               '{public, private, locked, unlocked}; MIXED protection: {no passphrase, passphrase} on the primary and on each of 1..2 subkeys, outside and inside unlock(), x flag placement x 7 operations x enforcement; 0..3 subkeys for a smaller family; identity choice (None, name, comment, e-mail, third uid, '
                'unknown) over user ids with different flags; random self-signature / binding histories (1-3 signatures per uid / subkey, packets '
                'shuffled; 45 %: the identity revoked / attested by the key after its newest certification, 15 %: newest certification with key flags in the unhashed area only); '
                'exhaustive: certification, then revocation / attestation by the key (without / with a KeyFlags subpacket of its own) or a certification with unhashed key flags; re-binding through the API; empty key, key without identity (incl. its first self-certification), subkey as receiver, '
-               'subkey without binding; decrypt routing for messages addressed to each component, to two, to a stranger. The used component is '
+               'subkeys without binding signature in effect (none / expired only), image-only identity and image before user ids as default identity, unknown user= incl. proper substrings of names; decrypt routing for messages addressed to each component, to two, to a stranger. The used component is '
                'observed through signature.signer / signer_fingerprint / message.encrypters and cross-checked by verifying / decrypting under '
                'that component alone. distinct = distinct (key description, operation, user)',
           trusted=['reading the model input (flags, creation times, stored signature order, issuer) back from the real key object in the harness'],
@@ -18,13 +18,13 @@ CFG = cfg('C16', refine=['Refine_policy'], extract='Ex_C16', driver='c16',
                        'and sets the S2K cost of the protected test keys to the minimum',
                        'source text of KeyAction.usage/check_attributes/__call__, _get_key_flags, self_signatures, get_uid, is_public/is_protected/'
                        'is_unlocked, PGPUID.selfsig, PGPSignature.key_flags and the seven @KeyAction lines is pinned; an edit is reported as a broken obligation',
-                       'user attributes (non-UserID entries of _uids) are not modelled'])
+                       'a subkey receiver is given its parent\'s identities (what get_uid searches); user attributes are entries of k_uids with u_text = false'])
 
 TEXT = ('Rocq theorems (Props/C16.v, closed under the global context) about the model of KeyAction: the chosen component has an intersecting flag and '
         'is the first such in the order primary, subkeys (induction over an arbitrary subkey list); refusal iff no component is capable (enforcement '
         'on); enforcement off runs the last visited component with a warning; operations without flags use the receiver; the precondition matrix '
-        'key form x operation; a key without identity refuses all but certification; flags come from the most recent qualifying signature '
-        '(subkey: newest binding; user id: newest self-CERTIFICATION, unchanged by any revocation / attestation, flags from the hashed area) -- the oldest-binding variant and the newest-signature-of-any-type variant are refuted; decryption routes to an addressed subkey. Tie: '
+        'form of a key object x operation, checked on the component usage() selects (a private operation runs only on an unlocked private component, encryption only on a public one; the receiver-checked variant is refuted); no outcome is an exception other than PGPError (C16_no_crash; the variants that raised for an unknown user= / an unbound subkey / an image-only identity are refuted); a key without identity refuses all but certification; flags come from the most recent qualifying signature '
+        '(subkey: newest binding in effect, the empty set when none; user id: newest self-CERTIFICATION, unchanged by any revocation / attestation, flags from the hashed area) -- the oldest-binding variant and the newest-signature-of-any-type variant are refuted; decryption routes to an addressed subkey. Tie: '
         'exhaustive correspondence of the extracted model with real keys + the property text evaluated directly on the implementation + pinned sources.',
         'DESIGN.md 5 C16',
         'machine-checked proof in Rocq (Coq 8.16.1) + extracted-model correspondence')
